@@ -276,6 +276,28 @@ def run_result(case, ctx):
             if got != want:
                 why = "nullable-dropped" if (got is not None and got[0] is want[0]) else "kind"
                 return ctx.fail(f"result/concat-{form}/{why}/got-{_name(got)}-for-{_name(want)}", f"{case['a']!r} << {case['b']!r} ({form}): values {vals!r} reported as {got}")
+        # one scalar at a time: the same fold, step by step
+        r = a
+        folded = ref_dtype(list(case["a"])) if not all(x is None for x in case["a"]) else (object, True)
+        for x in case["b"]:
+            ctx.ev()
+            try:
+                r = r << x
+            except Exception:  # noqa: BLE001
+                ctx.label("concat_refused")
+                break
+            if isinstance(r, Table):
+                break
+            if x is None:
+                folded = (folded[0], True)
+            elif folded[0] is not object:
+                from harness.refmodel import join_kind as _jk
+                folded = (_jk(folded[0], type(x)), folded[1])
+            got = _dt(r.schema())
+            if got != folded:
+                why = "nullable" if (got is not None and got[0] is folded[0]) else "kind"
+                return ctx.fail(f"result/concat-scalar/{why}/got-{_name(got)}-for-{_name(folded)}",
+                                f"{case['a']!r} << ... << {x!r}: values {list(r)!r} reported as {got}")
         if None in case["b"] and None not in case["a"]:
             ctx.nontrivial()
         return
